@@ -282,9 +282,9 @@ def h2_header_list_limit(li: int, size: int) -> bool:
 
 @harness(
     "C18",
-    dom={"kmax": (1, 2), "extra": (0, 1), "ai": (0, 4), "seg": (0, 2), "cut": (0, 10), "body": "bool", "flavour": (0, 1)},
-    split={"ai": "each"},
-    witnesses=[{"kmax": 1, "extra": 1, "ai": 3, "seg": 1, "cut": 9, "body": True, "flavour": 0}, {"kmax": 2, "extra": 0, "ai": 0, "seg": 0, "cut": 0, "body": False, "flavour": 0},
+    dom={"kmax": (1, 2), "extra": (0, 1), "ai": (0, 4), "seg": (0, 2), "cut": (0, 5), "body": "bool", "flavour": (0, 1)},
+    split={"ai": "each", "flavour": "each"},
+    witnesses=[{"kmax": 1, "extra": 1, "ai": 3, "seg": 1, "cut": 4, "body": True, "flavour": 0}, {"kmax": 2, "extra": 0, "ai": 0, "seg": 0, "cut": 0, "body": False, "flavour": 0},
                {"kmax": 1, "extra": 1, "ai": 1, "seg": 0, "cut": 0, "body": False, "flavour": 1}],
     budget=120,
     per_path=120,
@@ -305,7 +305,7 @@ def h1_keep_alive_max(kmax: int, extra: int, ai: int, seg: int, cut: int, body: 
     ai = conc(ai, 0, 4)
     flavour = conc(flavour, 0, 1)
     seg = conc(seg, 0, 2)
-    cut = conc(cut, 0, 10)
+    cut = conc(cut, 0, 5)
     body = True if body else False
     n = kmax + extra
     r = 1 if body else 0  # POST with a body / GET
